@@ -54,6 +54,7 @@ class Recorder(object):
     def __init__(self):
         self.sent = []          # (tag, bytes, destination)
         self.opened = 0
+        self.fail_at = None     # index into `sent` at which the next send() fails once (an injected socket error)
 
 
 class FakeSocket(object):
@@ -65,6 +66,9 @@ class FakeSocket(object):
         self.addr = addr
 
     def send(self, data):
+        if self.rec.fail_at is not None and len(self.rec.sent) >= self.rec.fail_at:
+            self.rec.fail_at = None
+            raise IOError(111, "Connection refused")        # a transient error of the operating system
         self.rec.sent.append((self.tag, bytes(data), self.addr))
         return len(data)
 
@@ -184,6 +188,7 @@ def _run_history(h):
             port = b["port"] if b["port"] is not None else DOCUMENTED_BOOT_PORT
             first = len(rec.sent)
             structs, result = None, ["return"]
+            rec.fail_at = (first + b["fault"]) if b.get("fault") else None
             try:
                 if b["via"] == "boot":
                     if b["port"] is not None:
@@ -196,6 +201,8 @@ def _run_history(h):
                     structs = mc.structs
             except Exception as ex:      # judged by the spec (clause BootCompletes)
                 result = ["raise", type(ex).__name__]
+            fault_hit = int(bool(b.get("fault")) and rec.fail_at is None)
+            rec.fail_at = None
             try:
                 sv = project_sv(structs)
             except Exception:            # not struct definitions at all: an empty list, which the spec rejects
@@ -211,6 +218,7 @@ def _run_history(h):
                 dg=[list(s[1]) for s in mine],
                 dst=[[s[2][0], s[2][1]] if s[2] else ["", -1] for s in mine],
                 result=result,
+                fault=fault_hit,          # 1: one send() of this boot was made to fail by the environment
                 sv=sv,
                 info=dict(dict=-1 if b["dict"] is None else b["dict"],
                           caller_dict_changed=int(b["dict"] is not None and after != h["dicts"][b["dict"]]),
@@ -222,6 +230,18 @@ def _run_history(h):
             os.remove(p)
         os.rmdir(tmpdir)
     return dict(label=h["label"], ev=evs)
+
+
+def with_faults(rng, histories, share):
+    """copies of some histories in which one datagram of one plain boot() fails to be sent"""
+    out = []
+    for h in histories:
+        plain = [k for k, b in enumerate(h["boots"]) if b["via"] == "boot"]
+        if plain and rng.random() < share:
+            h2 = dict(h, boots=[dict(b) for b in h["boots"]], label=h["label"] + "+sendfault")
+            h2["boots"][rng.choice(plain)]["fault"] = rng.randint(1, 6)
+            out.append(h2)
+    return out
 
 
 def run_histories(histories):
@@ -354,6 +374,7 @@ def run(chk):
     nbig = chk.pick(2, 40)
     histories += [random_history(rng, cat, i, big=i < nbig) for i in range(nrand)]
     histories += default_image_histories()
+    histories += with_faults(rng, histories, 0.25)
     traces = run_histories(histories)
     for h, t in zip(histories, traces):
         boots = [e[1] for e in t["ev"] if e[0] == "boot"]
